@@ -6,6 +6,7 @@
 -/
 import CB.Props.C04
 import CB.Lemmas.GenBitsAdd
+import CB.Lemmas.GenChains
 namespace CB.P04G
 open CB
 
@@ -31,6 +32,108 @@ theorem model_is_translated_source (a b c : BitVec 64) :
     CB.sbb a.toNat b.toNat c.toNat = ((Gen.Prim.sbb a b c).1.toNat, (Gen.Prim.sbb a b c).2.toNat) ∧
     CB.overflowingAdd a.toNat b.toNat = ((Gen.Prim.overflowing_add a b).1.toNat, (Gen.Prim.overflowing_add a b).2.toNat) :=
   ⟨GenBits.adc_bridge a b c, GenBits.sbb_bridge a b c, GenBits.overflowingAdd_bridge a b⟩
+
+/-! ## T04.G2 — the SOURCE of the limb chains `Uint::{adc, sbb, wrapping_add, wrapping_sub, carrying_neg, wrapping_neg}`
+and of the `Limb::{adc, sbb, mac}` wrappers, regenerated on every run (tools/translate.py → CB/Gen/Chains.lean)
+
+`Gen.Chains.Uint.adc LIMBS self rhs carry` is the Lean translation of what src/uint/add.rs says NOW: a `Uint<LIMBS>` is the
+list of its limbs (`List (BitVec 64)`, little endian), `LIMBS` an explicit argument, the `while i < LIMBS` loop a
+recursive auxiliary definition that re-tests `i < LIMBS` every round, `limbs[i] = w` a `List.set`.  The theorems below are
+about those definitions, for EVERY limb count; `GenChains.nats l` is `l.map BitVec.toNat` (the limbs as the model's words). -/
+
+/-- `Limb::adc / sbb / mac` of the source are the primitives, hence the model's word functions, on all words -/
+theorem src_limb_wrappers (a b c k : BitVec 64) :
+    CB.adc a.toNat b.toNat c.toNat = ((Gen.Chains.Limb.adc a b c).1.toNat, (Gen.Chains.Limb.adc a b c).2.toNat) ∧
+    CB.sbb a.toNat b.toNat c.toNat = ((Gen.Chains.Limb.sbb a b c).1.toNat, (Gen.Chains.Limb.sbb a b c).2.toNat) ∧
+    Gen.Chains.Limb.mac a b c k = Gen.Prim.mac a b c k := by
+  rw [GenBits.limb_adc_eq, GenBits.limb_sbb_eq]
+  exact ⟨GenBits.adc_bridge a b c, GenBits.sbb_bridge a b c, GenBits.limb_mac_eq a b c k⟩
+
+/-- the hand-written chain model (what T04.3–T04.5 above are proved about) IS the translated source, for every limb
+    count, every carry / borrow word -/
+theorem chain_model_is_translated_source (a b : List (BitVec 64)) (c : BitVec 64) (h : a.length = b.length) :
+    uadc (GenChains.nats a) (GenChains.nats b) c.toNat =
+      (GenChains.nats (Gen.Chains.Uint.adc a.length a b c).1, (Gen.Chains.Uint.adc a.length a b c).2.toNat) ∧
+    usbb (GenChains.nats a) (GenChains.nats b) c.toNat =
+      (GenChains.nats (Gen.Chains.Uint.sbb a.length a b c).1, (Gen.Chains.Uint.sbb a.length a b c).2.toNat) ∧
+    wrappingAdd (GenChains.nats a) (GenChains.nats b) = GenChains.nats (Gen.Chains.Uint.wrapping_add a.length a b) ∧
+    wrappingSub (GenChains.nats a) (GenChains.nats b) = GenChains.nats (Gen.Chains.Uint.wrapping_sub a.length a b) ∧
+    carryingNeg (GenChains.nats a) =
+      (GenChains.nats (Gen.Chains.Uint.carrying_neg a.length a).1, (Gen.Chains.Uint.carrying_neg a.length a).2.toNat) ∧
+    wrappingNeg (GenChains.nats a) = GenChains.nats (Gen.Chains.Uint.wrapping_neg a.length a) :=
+  ⟨GenChains.uadc_bridge a b c h, GenChains.usbb_bridge a b c h, GenChains.wrappingAdd_bridge a b h,
+   GenChains.wrappingSub_bridge a b h, GenChains.carryingNeg_bridge a, GenChains.wrappingNeg_bridge a⟩
+
+/-- the TRANSLATED `Uint::adc` is exact: `val r + B^LIMBS · carry_out = val a + val b + carry_in`, for every limb count and
+    every carry-in word; the result has `LIMBS` limbs -/
+theorem src_uint_adc_exact (a b : List (BitVec 64)) (c : BitVec 64) (h : a.length = b.length) :
+    val (GenChains.nats (Gen.Chains.Uint.adc a.length a b c).1) + B ^ a.length * (Gen.Chains.Uint.adc a.length a b c).2.toNat =
+      val (GenChains.nats a) + val (GenChains.nats b) + c.toNat ∧
+    (Gen.Chains.Uint.adc a.length a b c).1.length = a.length := by
+  have hl : (GenChains.nats a).length = (GenChains.nats b).length := by
+    rw [GenChains.nats_length, GenChains.nats_length, h]
+  have ⟨e, l, _⟩ := P04.uint_adc_exact (GenChains.nats a) (GenChains.nats b) c.toNat hl
+  rw [GenChains.uadc_bridge a b c h, GenChains.nats_length] at e l
+  dsimp only at e l
+  exact ⟨e, by simpa [GenChains.nats] using l⟩
+
+/-- the TRANSLATED `Uint::sbb` is exact: `val r + val b + borrow_in_bit = val a + B^LIMBS · borrow_out_bit` (only the top bit
+    of the incoming borrow word counts), the outgoing borrow is a mask, the result has `LIMBS` limbs -/
+theorem src_uint_sbb_exact (a b : List (BitVec 64)) (c : BitVec 64) (h : a.length = b.length) :
+    val (GenChains.nats (Gen.Chains.Uint.sbb a.length a b c).1) + (val (GenChains.nats b) + c.toNat / HALF) =
+      val (GenChains.nats a) + B ^ a.length * ((Gen.Chains.Uint.sbb a.length a b c).2.toNat / HALF) ∧
+    (a ≠ [] → (Gen.Chains.Uint.sbb a.length a b c).2 = 0#64 ∨ (Gen.Chains.Uint.sbb a.length a b c).2 = ~~~0#64) ∧
+    (Gen.Chains.Uint.sbb a.length a b c).1.length = a.length := by
+  have hl : (GenChains.nats a).length = (GenChains.nats b).length := by
+    rw [GenChains.nats_length, GenChains.nats_length, h]
+  have ⟨e, m, l, _⟩ := P04.uint_sbb_exact (GenChains.nats_WF a) (GenChains.nats_WF b) (toNat_lt_B c) hl
+  rw [GenChains.usbb_bridge a b c h, GenChains.nats_length] at e l
+  rw [GenChains.usbb_bridge a b c h] at m
+  dsimp only at e m
+  refine ⟨e, fun hne => ?_, by simpa [GenChains.nats] using l⟩
+  have hne' : GenChains.nats a ≠ [] := by
+    cases a with
+    | nil => exact absurd rfl hne
+    | cons _ _ => simp [GenChains.nats]
+  rcases m hne' with m0 | m1
+  · exact Or.inl (BitVec.eq_of_toNat_eq m0)
+  · exact Or.inr (BitVec.eq_of_toNat_eq (by rw [m1]; decide))
+
+/-- the TRANSLATED wrapping forms: sum / difference modulo `2^BITS` -/
+theorem src_uint_wrapping_exact (a b : List (BitVec 64)) (h : a.length = b.length) :
+    val (GenChains.nats (Gen.Chains.Uint.wrapping_add a.length a b)) =
+      (val (GenChains.nats a) + val (GenChains.nats b)) % B ^ a.length ∧
+    val (GenChains.nats (Gen.Chains.Uint.wrapping_sub a.length a b)) =
+      (val (GenChains.nats a) + B ^ a.length - val (GenChains.nats b)) % B ^ a.length := by
+  have hl : (GenChains.nats a).length = (GenChains.nats b).length := by
+    rw [GenChains.nats_length, GenChains.nats_length, h]
+  have e1 := P04.wrapping_add_spec hl
+  have e2 := P04.wrapping_sub_spec (GenChains.nats_WF a) (GenChains.nats_WF b) hl
+  rw [GenChains.wrappingAdd_bridge a b h, GenChains.nats_length] at e1
+  rw [GenChains.wrappingSub_bridge a b h, GenChains.nats_length] at e2
+  exact ⟨e1, e2⟩
+
+/-- the TRANSLATED `Uint::carrying_neg`: two's complement value, and the returned choice is truthy exactly for zero -/
+theorem src_uint_carrying_neg_exact (a : List (BitVec 64)) :
+    val (GenChains.nats (Gen.Chains.Uint.carrying_neg a.length a).1) =
+      (B ^ a.length - val (GenChains.nats a)) % B ^ a.length ∧
+    (Gen.Chains.Uint.carrying_neg a.length a).2 = GenBits.ofBool (decide (val (GenChains.nats a) = 0)) ∧
+    val (GenChains.nats (Gen.Chains.Uint.wrapping_neg a.length a)) =
+      (B ^ a.length - val (GenChains.nats a)) % B ^ a.length := by
+  have ⟨e, m, _, _⟩ := P04.carrying_neg_spec (GenChains.nats_WF a)
+  rw [GenChains.carryingNeg_bridge a, GenChains.nats_length] at e
+  rw [GenChains.carryingNeg_bridge a] at m
+  dsimp only at e m
+  refine ⟨e, BitVec.eq_of_toNat_eq (by rw [m, GenBits.ofBool_toNat]), ?_⟩
+  rw [← GenChains.wrappingNeg_bridge a]
+  show val (carryingNeg (GenChains.nats a)).1 = _
+  rw [GenChains.carryingNeg_bridge a]
+  exact e
+
+/-- non-vacuity / evaluation: the translated functions run — `(2^128 − 1) + 1` over two limbs carries out, `0 − 1` borrows -/
+example : Gen.Chains.Uint.adc 2 [~~~0#64, ~~~0#64] [1#64, 0#64] 0#64 = ([0#64, 0#64], 1#64) := by decide
+example : Gen.Chains.Uint.sbb 2 [0#64, 0#64] [1#64, 0#64] 0#64 = ([~~~0#64, ~~~0#64], ~~~0#64) := by decide
+example : Gen.Chains.Uint.carrying_neg 2 [0#64, 0#64] = ([0#64, 0#64], ~~~0#64) := by decide
 
 
 end CB.P04G
